@@ -1,31 +1,339 @@
+// C35: inner ring nodes outside the alphabet never act with alphabet authority; a member acts at most once.
+//
+// Every case builds a REAL innerring.Server (innerring.New + Server.Start) over an interposed morph client
+// (irworld) in one alphabet state, delivers one well-formed raw event of one registered kind (the kinds are
+// read from the listeners' registration tables, so a newly registered handler without a fixture is a harness
+// error, not silence), waits deterministically for the worker pools and inspects the recorded chain-mutating
+// client calls.
 package main
 
 import (
+	"errors"
+	"flag"
 	"fmt"
+	"sort"
+	"strings"
+	"sync"
 
+	"github.com/nspcc-dev/neo-go/pkg/crypto/keys"
+	"github.com/nspcc-dev/neo-go/pkg/util"
 	"github.com/nspcc-dev/neofs-node/pkg/morph/event"
+	"github.com/nspcc-dev/neofs-node/verif/lib/enumx"
+	"github.com/nspcc-dev/neofs-node/verif/lib/ev"
 	"github.com/nspcc-dev/neofs-node/verif/worlds/irworld"
+	"github.com/nspcc-dev/neofs-sdk-go/netmap"
 	"go.uber.org/zap"
 )
 
-func main() {
-	l, _ := zap.NewDevelopment()
-	w, err := irworld.New("probe", irworld.Options{Log: l}, nil)
+type tcase struct {
+	State    string
+	Delivery string
+}
+
+var verbose = flag.Bool("v", false, "log the inner ring's output (useful with -replay)")
+
+// alphabet states of the node. member=true only for the first.
+var states = []string{"member", "ir-nonmember-index-in-range", "ir-nonmember-index-out-of-range", "outsider-index-minus-1", "committee-lookup-error", "irlist-lookup-error"}
+
+func applyState(w *irworld.World, st string) {
+	me := w.NodeKey.PublicKey()
+	w.Lock(func(t *irworld.Tables) {
+		var alpha keys.PublicKeys
+		for i := 0; i < len(w.Alphabet); i++ {
+			alpha = append(alpha, irworld.AlphabetKey(i).PublicKey())
+		}
+		t.CommitteeErr, t.IRListErr = nil, nil
+		switch st {
+		case "member":
+			alpha[1] = me
+			t.Committee = alpha
+			t.IRList = append(alpha.Copy(), irworld.Key("ir-extra").PublicKey())
+		case "ir-nonmember-index-in-range":
+			t.Committee = alpha
+			t.IRList = append(keys.PublicKeys{me}, alpha...)
+		case "ir-nonmember-index-out-of-range":
+			t.Committee = alpha
+			t.IRList = append(alpha.Copy(), me)
+		case "outsider-index-minus-1":
+			t.Committee = alpha
+			t.IRList = alpha.Copy()
+		case "committee-lookup-error":
+			alpha[1] = me // would be a member, but the committee cannot be read
+			t.Committee = alpha
+			t.IRList = alpha.Copy()
+			t.CommitteeErr = errors.New("verif: committee lookup failed")
+		case "irlist-lookup-error":
+			alpha[1] = me
+			t.Committee = alpha
+			t.IRList = alpha.Copy()
+			t.IRListErr = errors.New("verif: inner ring list lookup failed")
+		default:
+			panic("state " + st)
+		}
+		// main chain wants one alphabet key replaced => governance has work to do
+		t.MainAlphabet = t.Committee.Copy()
+		t.MainAlphabet[len(t.MainAlphabet)-1] = irworld.Key("new-mainnet-alphabet").PublicKey()
+		sort.Sort(t.MainAlphabet)
+	})
+}
+
+type outcome struct {
+	alphabet []irworld.Call // calls needing alphabet authority made by the delivery
+	own      int
+	redeliv  []irworld.Call // calls made by delivering the same notary request again
+	err      error
+}
+
+func newWorld(c tcase) (*irworld.World, *irworld.Fixture, error) {
+	var f *irworld.Fixture
+	o := irworld.Options{StorageEmission: 1000}
+	if *verbose {
+		o.Log, _ = zap.NewDevelopment()
+	}
+	w, err := irworld.New(c.State+"/"+c.Delivery, o, func(w *irworld.World) {
+		applyState(w, c.State)
+		f = w.InstallFixture()
+		// the network map known at construction has one node only: the first NewEpoch sees a changed map
+		w.T.NetMap = new(netmap.NetMap)
+		w.T.NetMap.SetNodes(f.Nodes[:1])
+	})
 	if err != nil {
-		panic(err)
+		return nil, nil, err
 	}
-	fmt.Println("start err:", w.StartErr)
-	for _, c := range w.TakeCalls() {
-		fmt.Println("CALL", c)
+	if w.StartErr != nil {
+		w.Close()
+		return nil, nil, fmt.Errorf("Server.Start: %w", w.StartErr)
 	}
-	for _, k := range event.VerifNotificationKeys(w.Srv.VerifFSListener()) {
-		fmt.Println("fs notif", w.ContractName(k.Contract), k.Type, k.Handlers)
+	return w, f, nil
+}
+
+func contractByName(w *irworld.World, n string) util.Uint160 {
+	for _, h := range append([]util.Uint160{w.Netmap, w.Balance, w.Container, w.Reputation, w.NeoFS, w.Designate}, w.Alphabet...) {
+		if w.ContractName(h) == n {
+			return h
+		}
 	}
-	for _, k := range event.VerifNotaryKeys(w.Srv.VerifFSListener()) {
-		fmt.Println("fs notary", w.ContractName(k.Contract), k.Type, k.Handlers)
+	panic("contract " + n)
+}
+
+func run(c tcase) (out outcome) {
+	defer func() {
+		if r := recover(); r != nil {
+			if hp, ok := r.(irworld.HarnessPanic); ok {
+				out.err = hp
+				return
+			}
+			panic(r)
+		}
+	}()
+	w, f, err := newWorld(c)
+	if err != nil {
+		out.err = err
+		return
 	}
-	for _, k := range event.VerifNotificationKeys(w.Srv.VerifMainListener()) {
-		fmt.Println("main notif", w.ContractName(k.Contract), k.Type, k.Handlers)
+	defer w.Close()
+	split := func(cs []irworld.Call) {
+		for _, x := range cs {
+			if x.Class == "alphabet" {
+				out.alphabet = append(out.alphabet, x)
+			} else {
+				out.own++
+			}
+		}
 	}
-	w.Close()
+	if c.Delivery == "startup" {
+		split(w.TakeCalls())
+		return
+	}
+	w.TakeCalls()
+	w.Lock(func(t *irworld.Tables) {
+		nm := new(netmap.NetMap)
+		nm.SetNodes(f.Nodes)
+		t.NetMap = nm
+	})
+	p := strings.Split(c.Delivery, "/")
+	switch p[0] {
+	case "reconnect":
+		if err := w.Srv.VerifRestartFSChain(); err != nil {
+			out.err = err
+			return
+		}
+		w.Quiesce()
+	case "timer":
+		// after Start: last tick block 50 (t=50000ms), epoch 100s => basic income at t=100000, new epoch at t=150000
+		w.Header(100)
+		if p[1] == "new-epoch" {
+			w.TakeCalls()
+			w.Header(150)
+		}
+	case "fs-notification", "main-notification":
+		chain := strings.TrimSuffix(p[0], "-notification")
+		h := contractByName(w, p[1])
+		items, ok := w.CanonicalNotification(chain, h, p[2])
+		if !ok {
+			out.err = fmt.Errorf("no well-formed event fixture for registered notification %s", c.Delivery)
+			return
+		}
+		w.Notify(chain, h, p[2], irworld.Hash256("trigger-tx"), items...)
+	case "fs-notary":
+		h := contractByName(w, p[1])
+		sc, ok := w.CanonicalNotaryScript(f, h, p[2])
+		if !ok {
+			out.err = fmt.Errorf("no well-formed request fixture for registered notary type %s", c.Delivery)
+			return
+		}
+		nr := w.Request(sc, irworld.NROpt{Invoker: p[1] != "container"})
+		w.Notary(nr)
+		split(w.TakeCalls())
+		w.Notary(nr)
+		out.redeliv = w.TakeCalls()
+		return
+	default:
+		out.err = fmt.Errorf("unknown delivery %s", c.Delivery)
+		return
+	}
+	split(w.TakeCalls())
+	return
+}
+
+func sig(c irworld.Call) string {
+	n := c.Contract
+	if strings.HasPrefix(n, "alphabet") {
+		n = "alphabetN"
+	}
+	return c.Chain + "." + c.Method + ":" + n + "." + c.Op
+}
+
+func main() {
+	r := ev.Start("C35", ev.Exploration)
+	if r.Replay != "" {
+		var c tcase
+		r.LoadReplay(&c)
+		*verbose = true
+		o := run(c)
+		fmt.Printf("replay %+v: err=%v own=%d\n", c, o.err, o.own)
+		for _, x := range o.alphabet {
+			fmt.Println("  alphabet-authority call:", x)
+		}
+		if c.State != "member" && len(o.alphabet) > 0 {
+			r.Violation("replay:nonmember-acts", fmt.Sprintf("%+v made %d calls", c, len(o.alphabet)), c)
+		}
+		r.Finish()
+	}
+
+	// 1. enumerate what the real server registered
+	cat, _, err := newWorld(tcase{"member", "catalog"})
+	if err != nil {
+		r.Fatal("catalog world: %v", err)
+	}
+	deliveries := []string{"startup", "reconnect", "timer/basic-income", "timer/new-epoch"}
+	registered := 0
+	unhandled := []string{}
+	add := func(prefix string, ks []event.VerifKey) {
+		for _, k := range ks {
+			registered++
+			n := prefix + "/" + cat.ContractName(k.Contract) + "/" + k.Type
+			if k.Handlers == 0 {
+				unhandled = append(unhandled, n)
+				continue
+			}
+			deliveries = append(deliveries, n)
+		}
+	}
+	add("fs-notification", event.VerifNotificationKeys(cat.Srv.VerifFSListener()))
+	add("fs-notary", event.VerifNotaryKeys(cat.Srv.VerifFSListener()))
+	add("main-notification", event.VerifNotificationKeys(cat.Srv.VerifMainListener()))
+	if n := len(event.VerifNotaryKeys(cat.Srv.VerifMainListener())); n != 0 {
+		r.Fatal("main chain listener has %d notary registrations, no fixture", n)
+	}
+	cat.Close()
+
+	// 2. run the product
+	var cases []tcase
+	for _, d := range deliveries {
+		for _, s := range states {
+			cases = append(cases, tcase{s, d})
+		}
+	}
+	outs := make([]outcome, len(cases))
+	enumx.Parallel(len(cases), func(i int) {
+		outs[i] = run(cases[i])
+		r.Eval(1)
+	})
+
+	// 3. judge
+	type vkey struct{ delivery, call string }
+	nonmember := map[vkey][]string{}
+	firstCase := map[vkey]tcase{}
+	classes := map[string]bool{}
+	var mu sync.Mutex
+	_ = &mu
+	for i, c := range cases {
+		o := outs[i]
+		if o.err != nil {
+			r.Fatal("%+v: %v", c, o.err)
+		}
+		if c.State == "member" {
+			if len(o.alphabet) == 0 && c.Delivery != "reconnect" {
+				r.Fatal("fixture for %s is vacuous: an alphabet member made no chain call for it", c.Delivery)
+			}
+			seen := map[string]bool{}
+			for _, x := range o.alphabet {
+				k := x.String()
+				if seen[k] {
+					r.Violation("member-repeats-call/"+c.Delivery+"/"+sig(x), fmt.Sprintf("one delivery of %s made the identical call twice: %s", c.Delivery, k), c)
+				}
+				seen[k] = true
+			}
+			for _, x := range o.redeliv {
+				if x.Class == "alphabet" {
+					r.Violation("member-acts-again-on-redelivery/"+c.Delivery+"/"+sig(x), fmt.Sprintf("the same notary request delivered twice was acted upon twice: %s", x), c)
+				}
+			}
+			var ss []string
+			for _, x := range o.alphabet {
+				ss = append(ss, sig(x))
+			}
+			r.Nontrivial(c.Delivery)
+			classes["member:"+c.Delivery+"="+strings.Join(ss, "+")] = true
+			r.Sample(map[string]any{"case": c, "alphabet_authority_calls": ss, "own_account_calls": o.own})
+			continue
+		}
+		classes[fmt.Sprintf("%s:%s=%d", c.State, c.Delivery, len(o.alphabet))] = true
+		dedup := map[string]bool{}
+		for _, x := range append(append([]irworld.Call{}, o.alphabet...), o.redeliv...) {
+			if x.Class != "alphabet" || dedup[sig(x)] {
+				continue
+			}
+			dedup[sig(x)] = true
+			k := vkey{c.Delivery, sig(x)}
+			nonmember[k] = append(nonmember[k], c.State)
+			if _, ok := firstCase[k]; !ok {
+				firstCase[k] = c
+			}
+		}
+	}
+	var vks []vkey
+	for k := range nonmember {
+		vks = append(vks, k)
+	}
+	sort.Slice(vks, func(i, j int) bool { return vks[i].delivery+vks[i].call < vks[j].delivery+vks[j].call })
+	for _, k := range vks {
+		sts := nonmember[k]
+		sort.Strings(sts)
+		r.Violation("nonmember-acts/"+k.delivery+"/"+k.call+"/states="+strings.Join(sts, ","),
+			fmt.Sprintf("a node that is not an alphabet member made the alphabet-authority call %s on %s, in states %v", k.call, k.delivery, sts), firstCase[k])
+	}
+	r.Set("outcome_classes", len(classes))
+	r.Set("registered_event_kinds", registered)
+	r.Set("registered_without_handler", unhandled)
+	r.Set("deliveries", deliveries)
+	r.Set("states", states)
+	r.Rule("deliveries = {startup (innerring.New+Server.Start), RPC reconnect, basic-income timer, new-epoch timer} + every (contract,type) with a handler in the FS/main chain listeners' registration tables of the real server (read at run time); x 6 alphabet states; one well-formed raw event each (notary requests are also delivered a second time); non-trivial = delivery for which the member run produced >=1 alphabet-authority call (required for every delivery except reconnect, else harness error)")
+	r.Exhaustive(true)
+	r.Assume("chain reads are answered from tables and every chain-mutating morph client call succeeds (no RPC faults)",
+		"worker pools have capacity 1 and are never saturated (one event in flight)",
+		"N3-witness (contract account) owners are not modelled: owners and token issuers sign with ECDSA keys",
+		"calls classified as needing alphabet authority: Invoke, NotaryInvoke, NotaryInvokeNotAlpha, CallWithAlphabetWitness, NotarySignAndInvokeTX, TransferGas, UpdateNotaryList, UpdateNeoFSAlphabetList, runAlphabetNotaryScript; notary deposits of the node's own GAS are recorded but not judged")
+	r.Finish()
 }
